@@ -127,6 +127,14 @@ def repo(draw, portable=False, full_skeleton=False, ignored_dirs=True,
         for d in draw(st.lists(st.sampled_from(IGNORED_TOP), unique=True,
                                max_size=2)):
             files[f'{d}/some-file.tar.gz'] = draw(content)
+    # hidden names: skipped by every tool
+    for hp in draw(st.lists(st.sampled_from(
+            ['.gitignore', '.git/HEAD', 'eclass/.hidden',
+             'profiles/.editorconfig']), unique=True, max_size=2)):
+        files[hp] = 'hidden\n'
+    for c in cats[:1]:
+        if draw(st.integers(0, 3)) == 0:
+            files[f'{c}/.category-dot'] = 'x'
     for f in draw(st.lists(st.sampled_from(['skel.ebuild', 'header.txt',
                                             'skel.metadata.xml']),
                            unique=True, max_size=2)):
